@@ -70,7 +70,8 @@ def check_shortcuts(rep, project, qual):
     birth and the death column independently forgets which birth belongs to which death"""
     run = Run(project, qual)
     fi = run.fi
-    for ev in run.events("sort-columns"):
+    from .distances import colsort_decides
+    for ev in colsort_decides(run):
         if True:
             rep.refuted("MI-ID", fi, ev["node"],
                         "a diagram's birth and death columns are sorted independently (np.sort(..., axis=0)) and the result "
